@@ -108,11 +108,11 @@ fn shape_mixed_nested_operator(toks: &[&str]) -> bool {
 
 /// The runner keeps at most 200 violations per run: record only the first few witnesses of each
 /// *known* finding so that they can never crowd out a new one (all of them are still counted).
-static KNOWN_SEEN: [std::sync::atomic::AtomicUsize; 2] = [std::sync::atomic::AtomicUsize::new(0), std::sync::atomic::AtomicUsize::new(0)];
+static KNOWN_SEEN: [std::sync::atomic::AtomicUsize; 3] = [std::sync::atomic::AtomicUsize::new(0), std::sync::atomic::AtomicUsize::new(0), std::sync::atomic::AtomicUsize::new(0)];
 const KNOWN_KEEP: usize = 40;
 
 fn report(obs: &mut Obs, kind: &str, case: &str, detail: &str) {
-    let slot = match kind { "roundtrip-param-scalar" => Some(0), "roundtrip-mixed-nested-operator" => Some(1), _ => None };
+    let slot = match kind { "roundtrip-param-scalar" => Some(0), "roundtrip-mixed-nested-operator" => Some(1), "roundtrip-bom-key" => Some(2), _ => None };
     if let Some(i) = slot {
         if KNOWN_SEEN[i].fetch_add(1, std::sync::atomic::Ordering::Relaxed) >= KNOWN_KEEP {
             obs.count(&format!("known-finding-not-listed-again:{}", kind));
@@ -127,12 +127,16 @@ fn oracle(_input: &[u8], t1: &str, out: &[u8], ic: u8, fac: u8, rt: bool, case: 
     let has_mixed_object = toks.iter().any(|t| t.starts_with("Om"));
     let w1 = shape_param_scalar(&toks);
     let w2 = shape_mixed_nested_operator(&toks);
+    // known finding `roundtrip-bom-key`: the first key is an unquoted scalar starting with EF BB BF (it can
+    // only get into a tape when blanks precede it); written first in the file it is taken for a BOM
+    let w3 = toks.first().map_or(false, |t| t.starts_with("U:efbbbf"));
+    if rt && w3 { obs.count("shape:bom-key"); }
     if rt && w1 { obs.count("shape:param-scalar"); }
     if rt && w2 { obs.count("shape:mixed-nested-operator"); }
     // every divergence of a tape with a known-finding shape is reported under that finding's kind;
     // everything else keeps the general kinds and is a real violation
     let kind = |general: &'static str| -> &'static str {
-        if w1 { "roundtrip-param-scalar" } else if w2 { "roundtrip-mixed-nested-operator" } else { general }
+        if w3 { "roundtrip-bom-key" } else if w1 { "roundtrip-param-scalar" } else if w2 { "roundtrip-mixed-nested-operator" } else { general }
     };
     match TextTape::from_slice(out) {
         Err(e) => {
@@ -322,6 +326,18 @@ pub fn gen_c14(g: &mut Gen) {
         emit_input(g, ic, fac, &text, true);
     }
     g.count("mixed-arrays");
+
+    // 2c. known finding `roundtrip-bom-key`: a handful of probes per run, through the normal round-trip oracle
+    for i in 0..5 {
+        let blanks = *g.rng.pick(&[&b" "[..], b"\n", b"\t ", b"# c\n", b" \r\n"]);
+        let mut text = blanks.to_vec();
+        text.extend_from_slice(&[0xef, 0xbb, 0xbf]);
+        text.extend_from_slice(*g.rng.pick(&[&b"a=b"[..], b"key = { x=y }", b"k<1 z=2", b"a=\"q\""]));
+        if i % 2 == 0 { text.extend_from_slice(b" c=d"); }
+        let (ic, fac) = indent_cfg(&mut g.rng);
+        emit_input(g, ic, fac, &text, true);
+    }
+    g.count("bom-key-probes");
 
     // 3. everything in C01's model including objects that continue as a bare list (not preserved: documented)
     let n = g.budget(1_000, 20_000);
